@@ -21,6 +21,12 @@ PENDING_REASON = "check under construction (designed in DESIGN.md section 6); no
 ALL = ["C%02d" % i for i in range(1, 20)]
 
 CHECKS = {
+"C17": dict(
+  category="exploration",
+  text="Seeded invocations of the real binary (dev profile: overflow checks on): the grid statistic(14) x shapes with 1..4 axes of length 1..4, view/fold option combinations on degenerate shapes, option values at and beyond their bounds, valid spectra and call sets with simulated storage corruption (bit flips, truncation, duplicated/deleted ranges, splices, numeric blow-ups), absurd declared shapes, 0..8-byte inputs, spectra steered to every npy header alignment boundary, contradictory sample lists and samples files; a quarter of the inputs arrive on shim-chunked stdin. Oracle: exit 0, or non-zero (not 101, no signal) with a diagnostic. Sampling; violations are keyed by panic site.",
+  design_ref="DESIGN.md section 6 / C17",
+  note="Children run under 4 s CPU / 16 GiB limits that only protect the sandbox; hitting them is inconclusive, never a violation. --threads up to 64 only. Dev-profile binary.",
+  technique="deterministic simulation with fault injection at process level: seeded command lines x corrupted storage images x chunked delivery against the unmodified binary; crash-freedom oracle"),
 "C12": dict(
   category="exploration",
   text="Per generated diploid call set and configuration, ~19 executions that each perturb one dimension (container, explicit BGZF block layout incl. empty blocks and 1-byte blocks, --threads 1..16, transport path / stdin-file / pre-filled pipe, getrandom-derived hash seed, environment and cwd, repetition) are compared with the canonical execution: stdout bytes + exit status of the real binary (L2), spectrum bits in-process (L1, where hash seeds are also a controlled dimension through an in-process getrandom seam). Sampling of workloads and variants; thread count and layout are seeded, the interleaving of noodles-bgzf worker threads is not owned by the simulator.",
